@@ -229,6 +229,27 @@ def _unwrap_to_inner(frame, ctx):
     return INNER_MGR          # "the real manager is the one inside": the generator-based wrapper is replaced
 
 
+@contextlib.contextmanager
+def pruned_cm():
+    with Probe("inside-pruned"):
+        yield
+
+
+@stackscope.unwrap_context_generator.register(pruned_cm.__wrapped__)
+def _prune_wrapper(frame, ctx):
+    return stackscope.PRUNE      # "uninteresting plumbing": the context is hidden, but it stays in the tree with its inner stack
+
+
+def scenario_pruned_gcm():
+    # a generator-based manager that a hook HIDES (PRUNE): nothing is replaced, so the context keeps its inner stack, and a fault
+    # recorded in that nested extraction must stay retrievable there (added after seed C05-prune-discards-inner-stack-error)
+    def user():
+        with pruned_cm():
+            yield
+    g = user(); next(g)
+    return g, (lambda: g.close())
+
+
 def scenario_unwrapped_gcm():
     # a generator-based manager whose registered unwrapper SUCCEEDS: fill_context replaces obj and resets inner_stack/children.
     # Faults inside the nested extraction of the manager's generator are recorded in that inner stack first.
@@ -374,7 +395,7 @@ def check_base(item):
 PAIR_CAP = 4000 if THOROUGH else 700
 SEEN_F11 = []
 SEEN_F19 = []
-for scen in (scenario_coro, scenario_thread, scenario_slice, scenario_custom, scenario_nonstack, scenario_unwrapped_gcm, scenario_exiting_gcm,
+for scen in (scenario_coro, scenario_thread, scenario_slice, scenario_custom, scenario_nonstack, scenario_unwrapped_gcm, scenario_pruned_gcm, scenario_exiting_gcm,
              scenario_plain_iterator_chain, scenario_plain_iterator_hand, scenario_hostile_item,
              scenario_stored_exception):
     item, cleanup = scen()
